@@ -585,7 +585,7 @@ func (s *GenSource) genTx(w *World, b *Block) ([]byte, string) {
 		case 2:
 			sp.to = actorNamed(fmt.Sprintf("fresh%d", unif(t, 4, "fresh"))).Addr
 		case 3:
-			if ks := sortedKeys(w.Contracts); len(ks) > 0 {
+			if ks := append(sortedKeys(w.Contracts), sortedKeys(w.Dead)...); len(ks) > 0 {
 				sp.to = unhx(pick(t, ks, "toContract"))
 				sp.contract = true
 				sp.gas = s.P.ContractGasCap
@@ -911,7 +911,7 @@ func (s *GenSource) genOption(w *World) []byte {
 	n := 1 + unif(t, 3, "nFields")
 	focus := map[string]int{"maxValidatorCnt": 0, "minValidatorStake": 1, "rewardPerPower": 2, "lazyRewardBlocks": 3, "gasPrice": 5, "minTrxGas": 6, "slashRatio": 7}
 	for i := 0; i < n; i++ {
-		f := unif(t, 12, "field")
+		f := unif(t, 20, "field")
 		if fi, ok := focus[s.P.GovFocus]; ok && i == 0 && pct(t, 75, "focusField") {
 			f = fi
 		}
@@ -941,6 +941,30 @@ func (s *GenSource) genOption(w *World) []byte {
 			o.MinSignedBlocks = int64(rapid.IntRange(1, int(o.SignedBlocksWindow)).Draw(t, "oMinSigned"))
 		case 11:
 			o.Version = int64(rapid.IntRange(2, 9).Draw(t, "oVersion"))
+		case 12: // the window alone (never below the active minimum of signed blocks)
+			lo := int(w.Params.MinSignedBlocks)
+			if lo < 3 {
+				lo = 3
+			}
+			if lo <= 14 {
+				o.SignedBlocksWindow = int64(rapid.IntRange(lo, 14).Draw(t, "oWindowAlone"))
+			}
+		case 13: // the minimum of signed blocks alone (never above the active window)
+			if hi := int(min64(w.Params.SignedBlocksWindow, 14)); hi >= 1 {
+				o.MinSignedBlocks = int64(rapid.IntRange(1, hi).Draw(t, "oMinSignedAlone"))
+			}
+		case 14:
+			o.MinDelegatorStake = rigo(uint64(rapid.IntRange(1, 3).Draw(t, "oMinDeleg"))).Dec()
+		case 15:
+			o.MaxTrxGas = uint64(pick(t, []int{1_000_000, 25_000_000, 30_000_000}, "oMaxTrxGas"))
+		case 16:
+			o.MaxBlockGas = uint64(pick(t, []int{25_000_000, 50_000_000}, "oMaxBlockGas"))
+		case 17:
+			o.MinVotingPeriodBlocks = int64(rapid.IntRange(1, 2).Draw(t, "oMinVoting"))
+		case 18:
+			o.MaxUpdatableStakeRatio = int64(pick(t, []int{33, 50, 90, 100}, "oUpdRatio"))
+		case 19:
+			o.MaxIndividualStakeRatio = int64(pick(t, []int{33, 60, 100}, "oIndRatio"))
 		}
 	}
 	return optionDoc(o)
@@ -987,6 +1011,24 @@ func optionDoc(o *Params) []byte {
 	}
 	if o.MinSignedBlocks != 0 {
 		m["minSignedBlocks"] = itoa(o.MinSignedBlocks)
+	}
+	if o.MinDelegatorStake != "" {
+		m["minDelegatorStake"] = o.MinDelegatorStake
+	}
+	if o.MaxTrxGas != 0 {
+		m["maxTrxGas"] = itoa(int64(o.MaxTrxGas))
+	}
+	if o.MaxBlockGas != 0 {
+		m["maxBlockGas"] = itoa(int64(o.MaxBlockGas))
+	}
+	if o.MinVotingPeriodBlocks != 0 {
+		m["minVotingPeriodBlocks"] = itoa(o.MinVotingPeriodBlocks)
+	}
+	if o.MaxUpdatableStakeRatio != 0 {
+		m["maxUpdatableStakeRatio"] = itoa(o.MaxUpdatableStakeRatio)
+	}
+	if o.MaxIndividualStakeRatio != 0 {
+		m["maxIndividualStakeRatio"] = itoa(o.MaxIndividualStakeRatio)
 	}
 	out := []byte("{")
 	for i, k := range sortedKeys(m) {
